@@ -899,6 +899,10 @@ func (r *Reader) processParagraph(p paragraphXML) parsedParagraph {
 	}
 
 	parsed.Text = strings.Join(textParts, "")
+	if p.InnerXML != "" {
+		// Inline content (text, spans, links, tabs, line breaks) in document order
+		parsed.Text = inlineText(p.InnerXML)
+	}
 
 	return parsed
 }
@@ -944,6 +948,10 @@ func (r *Reader) processHeading(h headingXML) parsedParagraph {
 	}
 
 	parsed.Text = strings.Join(textParts, "")
+	if h.InnerXML != "" {
+		// Inline content in document order
+		parsed.Text = inlineText(h.InnerXML)
+	}
 
 	return parsed
 }
